@@ -55,7 +55,7 @@ Call(c) ==
              tok |-> IF "tok" \in DOMAIN c THEN c.tok ELSE -1, bound |-> FALSE]
   /\ UNCHANGED <<bcfg, out, usedq>>
 
-Entry(c, seen) == [op |-> c.op, sector |-> c.sector, n |-> c.n, dg |-> c.dg, seen |-> seen, status |-> -1, rdg |-> ""]
+Entry(c, seen) == [op |-> c.op, sector |-> c.sector, n |-> c.n, dg |-> c.dg, seen |-> seen, status |-> -1, rdg |-> "", rid |-> <<>>]
 
 DevReq(tok, r) ==
   IF tok \in DOMAIN out /\ ~out[tok].seen
@@ -72,17 +72,24 @@ DevReq(tok, r) ==
        /\ out' = (tok :> Entry(cur, TRUE)) @@ out
        /\ UNCHANGED <<bcfg, usedq>>
 
-DevResp(tok, status, dg) ==
+\* (id: the 20 bytes supplied in answer to an id query, <<>> for the other requests)
+DevResp(tok, status, dg, id) ==
   /\ tok \in DOMAIN out /\ out[tok].seen
-  /\ out' = [out EXCEPT ![tok].status = status, ![tok].rdg = dg]
+  /\ out' = [out EXCEPT ![tok].status = status, ![tok].rdg = dg, ![tok].rid = id]
   /\ UNCHANGED <<bcfg, cur, usedq>>
 DevDone(tok) == usedq' = Append(usedq, tok) /\ UNCHANGED <<bcfg, cur, out>>
+
+\* the id string is NUL-padded: its length is the position of the first NUL, all 20 bytes if none
+IdLen(id) == IF \E i \in 1..Len(id) : id[i] = 0
+             THEN (CHOOSE i \in 1..Len(id) : id[i] = 0 /\ \A j \in 1..(i - 1) : id[j] # 0) - 1
+             ELSE Len(id)
 
 \* result of consuming the completion of `tok` for an operation of kind op
 Consumed(tok, r) ==
   /\ usedq # <<>> /\ Head(usedq) = tok /\ tok \in DOMAIN out /\ out[tok].status # -1
   /\ ResultOf(r) = StatusResult(out[tok].status)
   /\ (r.ok /\ (IsRead(out[tok].op) \/ out[tok].op = "device_id")) => r.dg = out[tok].rdg   \* exactly what the device supplied
+  /\ (r.ok /\ out[tok].op = "device_id" /\ "len" \in DOMAIN r) => r.len = IdLen(out[tok].rid)
   /\ usedq' = Tail(usedq)
   /\ out' = [t \in DOMAIN out \ {tok} |-> out[t]]
 
